@@ -484,8 +484,21 @@ def run_case(case):
                 mode = ["full", "partial", "close"][(k // 3) % 3]
                 R.load_many(f"{case['fmt']}:load_many[{mode}]:{label}", fmt, mode)
             feats.append(f"{case['fmt']}:{case['file']}:{label.split(':')[0]}:{label.split(':')[-1] if 'cut' in label else label.split('@')[0]}")
-        # a name for which no format can be selected: FileFormatError naming the file
         import iodata
+
+        # an operation this format does not have, asked for right after the operations it has were used on the same name
+        if case["fmt"] not in MANY and not case["explicit"]:
+            R.write(R.raw)
+            try:
+                for _ in iodata.load_many(R.path):
+                    break
+                R.add("unsupported-operation-ran", f"load_many on a {case['fmt']} file returned frames although the format has no load_many")
+            except iodata.utils.FileFormatError:
+                R.counters["fileformaterrors"] += 1
+            except Exception as exc:
+                R.add(f"escaped:{type(exc).__name__}", f"load_many on a {case['fmt']} file (format without load_many) after load_one on the same "
+                                                       f"name: {type(exc).__name__} instead of FileFormatError: {str(exc)[:100]}")
+        # a name for which no format can be selected: FileFormatError naming the file
 
         unk = os.path.join(root, "content.unknown_extension")
         with open(unk, "wb") as fh:
